@@ -29,7 +29,10 @@ from . import common
 
 QUERIES = ["$..*", "$..a", "$..[?@]", "$..[0]"]
 # the limit counts from the node the descendant segment is applied to
-PREFIXED = ["$.a..*", "$[0]..*", "$.*..a", "$[*]..[0]", "$.a.a..*", "$[0][0]..[?@]", "$[?@]..*"]
+PREFIXED = ["$.a..*", "$[0]..*", "$.*..a", "$[*]..[0]", "$.a.a..*", "$[0][0]..[?@]", "$[?@]..*",
+            # a descendant segment inside a filter / a function argument: the error must not be swallowed there
+            "$[?count(@..*) > 0]", "$[?@..a]", "$[?length(value(@..a)) > 0 || @]", "$.a[?count($..*) > 1]", "$[?match(value(@..a), 'x') || @]",
+            "$[?@[?@..*]]"]
 
 
 def materialise(g):
